@@ -10,7 +10,9 @@ import (
 
 // Ledger: k operations (publish, deferred publish, delivery, FIN, REQ, timeout scan, deferred scan,
 // empty) from any valid channel state. After every operation:
-//   received == depth + in flight + deferred + finished + discarded-by-empty
+//
+//	received == depth + in flight + deferred + finished + discarded-by-empty
+//
 // and no counter of the channel or of the connection is negative.
 func VerifC13_Ledger() { verifrt.Atomic(verifC13Ledger) }
 
